@@ -156,6 +156,16 @@ def evaluate(ctx, cases):
                         a, b = implutil.quiet(f, t, direction=d), implutil.quiet(f, p, direction=d)
                         if not all((u != u and v != v) or u == v for u, v in zip(np.asarray(a, float).tolist(), np.asarray(b, float).tolist())):
                             fail('%s(direction=%r) differs between the two mirrored tables' % (f.__name__, d)); break
+            if ok and c['method'] == 'cycles' and len(t) >= 3 and c.get('rs', True):
+                # ... and so does the edge recomputation of the two tables (tables WITH sample columns; without them: known finding of C16)
+                from bycycle.burst import recompute_edges
+                try:
+                    et, ep = implutil.quiet(recompute_edges, t, dict(c['th'] or {})), implutil.quiet(recompute_edges, p, dict(c['th'] or {}))
+                    for col in ['amp_consistency', 'period_consistency', 'is_burst']:
+                        if not all((u != u and v != v) or u == v for u, v in zip(et[col].values.tolist(), ep[col].values.tolist())):
+                            fail('after recompute_edges column %s differs between the two mirrored tables' % col); break
+                except Exception as e:
+                    fail('recompute_edges raised on one of the mirrored tables: %s' % type(e).__name__)
         ctx.hist('method', c['method']); ctx.hist('return_samples', str(c.get('rs', True)))
         nt = len(t) >= 3 and len(set(t['period'].values)) > 1
         out.append(Result(c, judge_ok=ok, corr_ok=ok, sig=key, nontrivial=nt, info=info))
